@@ -546,13 +546,21 @@ Record switches := { sw_coalesce : bool; sw_shake : bool; sw_rewrite : bool; sw_
 Definition map_ids (f : expr -> out expr) (ids : list (str * expr)) : out (list (str * expr)) :=
   mapM (fun kv : str * expr => do e <- f (snd kv); Ok (fst kv, e)) ids.
 
+(* fix D15/D20: an identifier that was not inlined is optimised entry by entry, the group that
+   holds its entries (what all(X) / of(X, n) count) stays as it is *)
+Definition entries (f : expr -> out expr) (e : expr) : out expr :=
+  match e with
+  | EGroup s l => do l' <- mapM f l; Ok (EGroup s l')
+  | _ => f e
+  end.
+
 Definition optimise_detection (sw : switches) (dt : detection) : out detection :=
   do s1 <- (if sw_coalesce sw then
               do e <- coalesce (d_ids dt) (d_expr dt); Ok {| d_expr := e; d_ids := [] |}
             else Ok dt);
   do s2 <- (if sw_shake sw then
               do e <- shake (d_expr s1);
-              do ids <- map_ids shake (d_ids s1);
+              do ids <- map_ids (entries shake) (d_ids s1);
               Ok {| d_expr := e; d_ids := ids |}
             else Ok s1);
   let s3 := if sw_rewrite sw then
@@ -561,7 +569,7 @@ Definition optimise_detection (sw : switches) (dt : detection) : out detection :
             else s2 in
   if sw_matrix sw then
     do e <- matrix (shake_fuel (d_expr s3)) (d_expr s3);
-    do ids <- map_ids (fun x => matrix (shake_fuel x) x) (d_ids s3);
+    do ids <- map_ids (entries (fun x => matrix (shake_fuel x) x)) (d_ids s3);
     Ok {| d_expr := e; d_ids := ids |}
   else Ok s3.
 
